@@ -70,6 +70,7 @@ func exactAlloc() uint64 {
 
 func execM(cd *common.Codec, sc *Scenario, data []byte, x *simkit.Ctx, allocBytes func() uint64) *result {
 	simkit.SetCurrent(sc)
+	x.Alive()
 	t := simkit.NewTap(nil)
 	t.NoRecord = true
 	t.Clock = &x.Clock
